@@ -59,6 +59,9 @@ type scriptD struct {
 	Send  int   `json:"send"`
 	Close bool  `json:"close,omitempty"`
 	WFail bool  `json:"wfail,omitempty"`
+	// Interim 1xx responses sent in front of the head (same piece: the model parses a head atomically).  Odd ones carry a foreign
+	// X-Id and a Content-Length: neither may show up in what the caller gets.
+	Interim int `json:"interim,omitempty"`
 }
 
 type optsD struct {
@@ -70,21 +73,24 @@ type optsD struct {
 }
 
 type opD struct {
-	Op    string   `json:"op"` // call | more | conn (T = connection number) | sread | sclose | clean
-	T     int      `json:"t,omitempty"`
-	Opts  *optsD   `json:"opts,omitempty"`
-	Sc    *scriptD `json:"sc,omitempty"`
-	N     int      `json:"n,omitempty"`
-	Close bool     `json:"close,omitempty"`
+	Op    string    `json:"op"` // call | more | conn (T = connection number) | sread | sclose | clean
+	T     int       `json:"t,omitempty"`
+	Opts  *optsD    `json:"opts,omitempty"`
+	Sc    *scriptD  `json:"sc,omitempty"`
+	More  []scriptD `json:"more,omitempty"` // scripts for the 2nd, 3rd attempt (the last one is repeated)
+	N     int       `json:"n,omitempty"`
+	Close bool      `json:"close,omitempty"`
 }
 
 type desc struct {
-	Kind     string `json:"kind"` // seq | stress | pipe
+	Kind     string `json:"kind"` // seq | stress | pipe | api
 	Max      int    `json:"max,omitempty"`
 	MaxConns int    `json:"maxconns,omitempty"`
 	Reset    bool   `json:"reset,omitempty"`
 	Lifo     bool   `json:"lifo,omitempty"`
-	Client   bool   `json:"client,omitempty"` // seq: go through fasthttp.Client (shared reader pool) instead of a HostClient
+	Client   bool   `json:"client,omitempty"`   // seq: go through fasthttp.Client (shared reader pool) instead of a HostClient
+	Attempts int    `json:"attempts,omitempty"` // seq: MaxIdemponentCallAttempts (0 = 1) with the default RetryIf; attempt a of a call uses script a
+	Objs     string `json:"objs,omitempty"`     // seq: "" fresh Request/Response per call | shared (one pair re-used, never Reset) | pool (Acquire/Release)
 	Ops      []opD  `json:"ops,omitempty"`
 	Seed     int64  `json:"seed,omitempty"`
 	Workers  int    `json:"workers,omitempty"`
@@ -132,8 +138,20 @@ func dataUnit(id, j int) []byte {
 // wireChunks renders the wire form of a response to request id as one piece per symbol (coq: wire / chunk_form).
 // A chunked body is ONE chunk holding all units: the size line is a piece of its own, the CRLF that ends the chunk data rides on the
 // last unit, "0 CRLF CRLF" is the terminator.
-func wireChunks(id int, isHead bool, r respD) [][]byte {
-	out := [][]byte{headBytes(r.Head, id, false)}
+func interimBytes(id, n int) []byte {
+	var b []byte
+	for j := 0; j < n; j++ {
+		if j%2 == 0 {
+			b = append(b, "HTTP/1.1 100 Continue\r\n\r\n"...)
+		} else {
+			b = append(b, fmt.Sprintf("HTTP/1.1 102 Processing\r\nX-Id: %d\r\nContent-Length: %d\r\n\r\n", P+id, U)...)
+		}
+	}
+	return b
+}
+
+func wireChunks(id int, isHead bool, r respD, interim int) [][]byte {
+	out := [][]byte{append(interimBytes(id, interim), headBytes(r.Head, id, false)...)}
 	if isHead || r.Head.NoBody {
 		return out
 	}
@@ -210,11 +228,11 @@ func (timeoutErr) Timeout() bool   { return true }
 func (timeoutErr) Temporary() bool { return true }
 
 type fnet struct {
-	conns     []*fconn
-	scripts   map[int]scriptD
-	heads     map[int]bool
-	failWrite bool
-	lastConn  int
+	conns    []*fconn
+	scripts  map[int][]scriptD
+	seen     map[int]int
+	heads    map[int]bool
+	lastConn int
 }
 
 type fconn struct {
@@ -252,10 +270,6 @@ func (c *fconn) Write(p []byte) (int, error) {
 	if c.closed {
 		return 0, errors.New("scripted: write on closed connection")
 	}
-	if c.nw.failWrite {
-		c.nw.failWrite = false
-		return 0, errors.New("scripted: write failure")
-	}
 	c.outbuf = append(c.outbuf, p...)
 	for {
 		i := bytes.Index(c.outbuf, []byte("\r\n\r\n"))
@@ -264,21 +278,30 @@ func (c *fconn) Write(p []byte) (int, error) {
 		}
 		reqb := c.outbuf[:i+4]
 		c.outbuf = c.outbuf[i+4:]
-		if c.srvClosed {
-			continue
-		}
-		c.send(len(c.pending)) // whatever the server was holding back goes out before it looks at the next request
 		m := reXID.FindSubmatch(reqb)
 		if m == nil {
 			panic("scripted server: request without X-Id: " + string(reqb))
 		}
 		id, _ := strconv.Atoi(string(m[1]))
-		sc, ok := c.nw.scripts[id]
+		scs, ok := c.nw.scripts[id]
 		if !ok {
 			panic("scripted server: no script for request")
 		}
-		if wfResp(sc.Resp) { // the model's server never produces an ill-formed response: nothing is sent then
-			c.pending = append(c.pending, wireChunks(id, bytes.HasPrefix(reqb, []byte("HEAD ")), sc.Resp)...)
+		a := c.nw.seen[id] // which attempt of the call this is
+		c.nw.seen[id]++
+		if a >= len(scs) {
+			a = len(scs) - 1
+		}
+		sc := scs[a]
+		if sc.WFail {
+			return 0, errors.New("scripted: write failure")
+		}
+		if c.srvClosed {
+			continue
+		}
+		c.send(len(c.pending)) // whatever the server was holding back goes out before it looks at the next request
+		if wfResp(sc.Resp) {   // the model's server never produces an ill-formed response: nothing is sent then
+			c.pending = append(c.pending, wireChunks(id, bytes.HasPrefix(reqb, []byte("HEAD ")), sc.Resp, sc.Interim)...)
 			c.send(sc.Send)
 		}
 		if sc.Close {
@@ -343,9 +366,22 @@ func classify(err error) uint64 {
 }
 
 type openStream struct {
-	resp *fasthttp.Response
-	conn *fconn
+	resp   *fasthttp.Response
+	conn   *fconn
+	shared bool
 }
+
+// how the caller manages its Request/Response values: the flags the caller sets are written only when the CALLER changes them, so
+// anything the library leaves behind in a re-used value (SkipBody after HEAD, Connection: close after MaxConnDuration, ...) stays
+type callerObjs struct {
+	mode                            string
+	req                             *fasthttp.Request
+	resp                            *fasthttp.Response
+	busy                            bool // the shared Response has an open body stream
+	skip, stream, reqClose, started bool
+}
+
+var objs *callerObjs
 
 type doer interface {
 	Do(req *fasthttp.Request, resp *fasthttp.Response) error
@@ -357,13 +393,16 @@ type doer interface {
 }
 
 func runSeq(d desc) (obs [][]uint64) {
-	nw := &fnet{scripts: map[int]scriptD{}, lastConn: -1}
-	never := func(*fasthttp.Request) bool { return false }
+	nw := &fnet{scripts: map[int][]scriptD{}, seen: map[int]int{}, lastConn: -1}
+	attempts := d.Attempts
+	if attempts < 1 {
+		attempts = 1
+	}
 	var hc doer
 	if d.Client {
 		c := &fasthttp.Client{
-			MaxConnsPerHost: d.MaxConns, MaxIdemponentCallAttempts: 1,
-			ReadTimeout: time.Hour, MaxResponseBodySize: d.Max * U, Dial: nw.dial, RetryIf: never,
+			MaxConnsPerHost: d.MaxConns, MaxIdemponentCallAttempts: attempts,
+			ReadTimeout: time.Hour, MaxResponseBodySize: d.Max * U, Dial: nw.dial,
 		}
 		if d.Reset {
 			c.MaxConnDuration = time.Nanosecond
@@ -374,8 +413,8 @@ func runSeq(d desc) (obs [][]uint64) {
 		hc = c
 	} else {
 		h := &fasthttp.HostClient{
-			Addr: "scripted:80", MaxConns: d.MaxConns, MaxIdemponentCallAttempts: 1,
-			ReadTimeout: time.Hour, MaxResponseBodySize: d.Max * U, Dial: nw.dial, RetryIf: never,
+			Addr: "scripted:80", MaxConns: d.MaxConns, MaxIdemponentCallAttempts: attempts,
+			ReadTimeout: time.Hour, MaxResponseBodySize: d.Max * U, Dial: nw.dial,
 		}
 		if d.Reset {
 			h.MaxConnDuration = time.Nanosecond
@@ -385,6 +424,7 @@ func runSeq(d desc) (obs [][]uint64) {
 		}
 		hc = h
 	}
+	objs = &callerObjs{mode: d.Objs, req: &fasthttp.Request{}, resp: &fasthttp.Response{}}
 	streams := map[int]*openStream{}
 	pool := func() []uint64 { return []uint64{uint64(hc.IdleConnsCount()), uint64(hc.ConnsCount())} }
 	for _, op := range d.Ops {
@@ -404,20 +444,45 @@ func runOp(nw *fnet, hc doer, streams map[int]*openStream, pool func() []uint64,
 		switch op.Op {
 		case "call":
 			o, sc := *op.Opts, *op.Sc
-			req := fasthttp.AcquireRequest()
-			resp := &fasthttp.Response{}
+			var req *fasthttp.Request
+			var resp *fasthttp.Response
+			shared := objs.mode == "shared" && !objs.busy
+			switch {
+			case shared:
+				req, resp = objs.req, objs.resp
+				if !objs.started || objs.skip != o.Skip {
+					resp.SkipBody = o.Skip
+				}
+				if !objs.started || objs.stream != o.Stream {
+					resp.StreamBody = o.Stream
+				}
+				if o.ReqClose && !objs.reqClose {
+					req.SetConnectionClose()
+				} else if !o.ReqClose && objs.reqClose {
+					req.Header.ResetConnectionClose()
+				}
+				objs.skip, objs.stream, objs.reqClose, objs.started = o.Skip, o.Stream, o.ReqClose, true
+			case objs.mode == "pool":
+				req, resp = fasthttp.AcquireRequest(), fasthttp.AcquireResponse()
+				defer fasthttp.ReleaseRequest(req)
+			default:
+				req, resp = fasthttp.AcquireRequest(), &fasthttp.Response{}
+			}
+			if !shared {
+				if o.ReqClose {
+					req.SetConnectionClose()
+				}
+				resp.StreamBody = o.Stream
+				resp.SkipBody = o.Skip
+			}
 			req.SetRequestURI("http://scripted/")
 			if o.Head {
 				req.Header.SetMethod("HEAD")
+			} else {
+				req.Header.SetMethod("GET")
 			}
 			req.Header.Set("X-Id", strconv.Itoa(op.T))
-			if o.ReqClose {
-				req.SetConnectionClose()
-			}
-			resp.StreamBody = o.Stream
-			resp.SkipBody = o.Skip
-			nw.scripts[op.T] = sc
-			nw.failWrite = sc.WFail
+			nw.scripts[op.T] = append([]scriptD{sc}, op.More...)
 			nw.lastConn = -1
 			var err error
 			switch o.API {
@@ -428,7 +493,6 @@ func runOp(nw *fnet, hc doer, streams map[int]*openStream, pool func() []uint64,
 			default:
 				err = hc.Do(req, resp)
 			}
-			nw.failWrite = false
 			code := classify(err)
 			if code == 9 {
 				obs = append(obs, []uint64{9})
@@ -438,10 +502,16 @@ func runOp(nw *fnet, hc doer, streams map[int]*openStream, pool func() []uint64,
 			if err == nil {
 				ob = append(ob, encHdr(resp))
 				if resp.BodyStream() != nil {
-					streams[op.T] = &openStream{resp: resp, conn: nw.conns[nw.lastConn]}
+					streams[op.T] = &openStream{resp: resp, conn: nw.conns[nw.lastConn], shared: shared}
+					if shared {
+						objs.busy = true
+					}
 				} else {
 					ob = append(ob, encBody(resp.Body())...)
 				}
+			}
+			if objs.mode == "pool" && streams[op.T] == nil {
+				fasthttp.ReleaseResponse(resp)
 			}
 			obs = append(obs, ob)
 		case "more":
@@ -502,6 +572,12 @@ func runOp(nw *fnet, hc doer, streams map[int]*openStream, pool func() []uint64,
 				s.resp.CloseBodyStream()
 			}
 			delete(streams, op.T)
+			if s.shared {
+				objs.busy = false
+			}
+			if objs.mode == "pool" {
+				fasthttp.ReleaseResponse(s.resp)
+			}
 			obs = append(obs, pool())
 		case "clean":
 			hc.CloseIdleConnections()
@@ -546,8 +622,11 @@ func coqOp(op opD) string {
 			k = "KHead"
 		}
 		o := hlib.App("mkOpts", k, hlib.Bool(op.Opts.ReqClose), hlib.Bool(op.Opts.Stream), hlib.Bool(op.Opts.Skip))
-		sc := hlib.App("mkScript", coqResp(op.Sc.Resp), nat(op.Sc.Send), hlib.Bool(op.Sc.Close), hlib.Bool(op.Sc.WFail))
-		return hlib.App("OpCall", nat(op.T), o, sc)
+		scs := []string{}
+		for _, sc := range append([]scriptD{*op.Sc}, op.More...) {
+			scs = append(scs, hlib.App("mkScript", coqResp(sc.Resp), nat(sc.Send), hlib.Bool(sc.Close), hlib.Bool(sc.WFail)))
+		}
+		return hlib.App("OpCall", nat(op.T), o, hlib.List(scs))
 	case "more":
 		return hlib.App("OpSrvMore", nat(op.T), nat(op.N), hlib.Bool(op.Close))
 	case "conn":
@@ -659,7 +738,14 @@ func stressServe(c net.Conn, seed int64, withSkip bool, wg *sync.WaitGroup) {
 		if err := req.Read(br); err != nil {
 			return
 		}
-		id, _ := strconv.Atoi(string(req.Header.Peek("X-Id")))
+		id, redirect := reqID(&req)
+		if redirect { // first hop of a redirected call: 302 to the real resource, with a body that carries the id as well
+			body := tokens(id, 60)
+			if _, err := fmt.Fprintf(c, "HTTP/1.1 302 Found\r\nX-Id: %d\r\nLocation: /i%d\r\nContent-Length: %d\r\n\r\n%s", id, id, len(body), body); err != nil {
+				return
+			}
+			continue
+		}
 		b := behOf(seed, id, withSkip)
 		isHead := req.Header.IsHead()
 		pre, fake := stressBody(id, b)
@@ -709,6 +795,9 @@ func stressServe(c net.Conn, seed int64, withSkip bool, wg *sync.WaitGroup) {
 			c.Write(fake)
 			return
 		}
+		if id%7 == 3 {
+			w.Write(interimBytes(id, 1+id%3))
+		}
 		fmt.Fprintf(&w, "HTTP/1.1 200 OK\r\nX-Id: %d\r\nContent-Length: %d\r\n", id, total)
 		if b.mode == "close" {
 			w.WriteString("Connection: close\r\n")
@@ -732,6 +821,140 @@ func stressServe(c net.Conn, seed int64, withSkip bool, wg *sync.WaitGroup) {
 			return
 		}
 	}
+}
+
+// reqID: the id of a request comes in the X-Id header or, for the APIs that take only a URL, in the path: /i<id>, or /r<id> for a
+// request that is to be redirected to /i<id> first
+func reqID(req *fasthttp.Request) (id int, redirect bool) {
+	if v := req.Header.Peek("X-Id"); len(v) > 0 && !bytes.HasPrefix(req.URI().Path(), []byte("/r")) {
+		id, _ = strconv.Atoi(string(v))
+		return id, false
+	}
+	p := req.URI().Path()
+	if len(p) > 2 {
+		id, _ = strconv.Atoi(string(p[2:]))
+		return id, p[1] == 'r'
+	}
+	return 0, false
+}
+
+// runAPI: the entry points that hand out a response without the caller touching Request/Response: Get, GetTimeout, GetDeadline, Post on
+// Client and HostClient (pooled Request/Response, redirect loop, the goroutine + pooled channel of the deadline variants whose call
+// is abandoned on timeout), DoRedirects, and LBClient.Do/DoTimeout/DoDeadline over two HostClients.
+func runAPI(d desc) []hcall {
+	var swg sync.WaitGroup
+	dial := func(addr string) (net.Conn, error) {
+		pc := fasthttputil.NewPipeConns()
+		swg.Add(1)
+		go stressServe(pc.Conn2(), d.Seed, false, &swg)
+		return pc.Conn1(), nil
+	}
+	cl := &fasthttp.Client{Dial: dial, MaxConnsPerHost: d.MaxConns, MaxConnWaitTimeout: 200 * time.Millisecond,
+		MaxResponseBodySize: stressMaxBody, ReadTimeout: 300 * time.Millisecond}
+	newHC := func() *fasthttp.HostClient {
+		return &fasthttp.HostClient{Addr: "api:80", Dial: dial, MaxConns: d.MaxConns, MaxConnWaitTimeout: 200 * time.Millisecond,
+			MaxResponseBodySize: stressMaxBody, ReadTimeout: 300 * time.Millisecond}
+	}
+	hc := newHC()
+	lb := &fasthttp.LBClient{Clients: []fasthttp.BalancingClient{newHC(), newHC()}, Timeout: 300 * time.Millisecond}
+	if !d.Retry {
+		cl.MaxIdemponentCallAttempts, hc.MaxIdemponentCallAttempts = 1, 1
+	}
+	var mu sync.Mutex
+	var hist []hcall
+	var wg sync.WaitGroup
+	for w := 0; w < d.Workers; w++ {
+		wg.Add(1)
+		go func(w int) {
+			defer wg.Done()
+			var dst []byte
+			for j := 0; j < d.PerW; j++ {
+				id := w*d.PerW + j
+				b := behOf(d.Seed, id, false)
+				h := hcall{id: id, code: 7}
+				hlib.Protect(func() {
+					url := fmt.Sprintf("http://api/i%d", id)
+					if id%3 == 0 {
+						url = fmt.Sprintf("http://api/r%d", id)
+					}
+					to := 250 * time.Millisecond
+					if b.timeout > 0 {
+						to = b.timeout
+					}
+					var status int
+					var body []byte
+					var err error
+					hdr := uint64(id) // the URL-only APIs do not expose headers
+					viaDo := func(do func(req *fasthttp.Request, resp *fasthttp.Response) error) {
+						req, resp := fasthttp.AcquireRequest(), fasthttp.AcquireResponse()
+						req.SetRequestURI(url)
+						req.Header.Set("X-Id", strconv.Itoa(id))
+						err = do(req, resp)
+						status = resp.StatusCode()
+						body = append(dst[:0], resp.Body()...)
+						if v, e := strconv.ParseUint(string(resp.Header.Peek("X-Id")), 10, 64); e == nil {
+							hdr = v
+						} else {
+							hdr = 999999999
+						}
+						fasthttp.ReleaseRequest(req)
+						fasthttp.ReleaseResponse(resp)
+					}
+					switch (id / 3) % 12 {
+					case 0:
+						status, body, err = cl.Get(dst[:0], url)
+					case 1:
+						status, body, err = cl.GetTimeout(dst[:0], url, to)
+					case 2:
+						status, body, err = cl.GetDeadline(dst[:0], url, time.Now().Add(to))
+					case 3:
+						args := fasthttp.AcquireArgs()
+						args.Set("id", strconv.Itoa(id))
+						status, body, err = cl.Post(dst[:0], url, args)
+						fasthttp.ReleaseArgs(args)
+					case 4:
+						viaDo(func(req *fasthttp.Request, resp *fasthttp.Response) error { return cl.DoRedirects(req, resp, 3) })
+					case 5:
+						status, body, err = hc.Get(dst[:0], url)
+					case 6:
+						status, body, err = hc.GetTimeout(dst[:0], url, to)
+					case 7:
+						status, body, err = hc.Post(dst[:0], url, nil)
+					case 8:
+						viaDo(func(req *fasthttp.Request, resp *fasthttp.Response) error { return hc.DoRedirects(req, resp, 3) })
+					case 9:
+						url = fmt.Sprintf("http://api/i%d", id) // LBClient does not follow redirects
+						viaDo(lb.Do)
+					case 10:
+						url = fmt.Sprintf("http://api/i%d", id)
+						viaDo(func(req *fasthttp.Request, resp *fasthttp.Response) error { return lb.DoTimeout(req, resp, to) })
+					default:
+						url = fmt.Sprintf("http://api/i%d", id)
+						viaDo(func(req *fasthttp.Request, resp *fasthttp.Response) error {
+							return lb.DoDeadline(req, resp, time.Now().Add(to))
+						})
+					}
+					dst = body
+					h = hcall{id: id, code: 7}
+					if err == nil {
+						_ = status
+						h.hdr = hdr
+						h.body = bodyIDs(body)
+					}
+					h.code = classify(err)
+				})
+				mu.Lock()
+				hist = append(hist, h)
+				mu.Unlock()
+			}
+		}(w)
+	}
+	if !waitOrGiveUp(&wg) {
+		return snapshot(&mu, &hist, true)
+	}
+	// calls abandoned by GetTimeout/GetDeadline are still running: let them finish before the next case
+	time.Sleep(50 * time.Millisecond)
+	return snapshot(&mu, &hist, false)
 }
 
 func runStress(d desc) []hcall {
@@ -882,7 +1105,7 @@ func pipeServe(c net.Conn, seed int64, wg *sync.WaitGroup) {
 func runPipe(d desc) []hcall {
 	var swg sync.WaitGroup
 	pc := &fasthttp.PipelineClient{
-		Addr: "pipe:80", MaxConns: 1, MaxPendingRequests: 8 + int(d.Seed%3)*24, ReadTimeout: 300 * time.Millisecond,
+		Addr: "pipe:80", MaxConns: 1, MaxPendingRequests: 4 + int(d.Seed%3)*14, ReadTimeout: 300 * time.Millisecond,
 		Logger: nopLogger{},
 		Dial: func(addr string) (net.Conn, error) {
 			p := fasthttputil.NewPipeConns()
@@ -909,7 +1132,9 @@ func runPipe(d desc) []hcall {
 				}
 				req.Header.Set("X-Id", strconv.Itoa(id))
 				var err error
-				if b.timeout > 0 {
+				if id%5 == 4 {
+					err = pc.Do(req, resp) // no deadline: overflow substitution path when the queue is full
+				} else if b.timeout > 0 {
 					err = pc.DoTimeout(req, resp, b.timeout+2*time.Millisecond)
 				} else if b.stream {
 					err = pc.DoDeadline(req, resp, time.Now().Add(250*time.Millisecond))
@@ -1004,7 +1229,7 @@ func wireLen(isHead bool, r respD) int {
 }
 
 func genSeq(r *rand.Rand) desc {
-	d := desc{Kind: "seq", Max: hlib.Pick(r, []int{0, 0, 2, 3, 4}), MaxConns: 1 + r.Intn(3), Reset: r.Intn(15) == 0, Lifo: r.Intn(2) == 0, Client: r.Intn(3) == 0}
+	d := desc{Kind: "seq", Max: hlib.Pick(r, []int{0, 0, 2, 3, 4}), MaxConns: 1 + r.Intn(3), Reset: r.Intn(15) == 0, Lifo: r.Intn(2) == 0, Client: r.Intn(3) == 0, Objs: hlib.Pick(r, []string{"", "", "shared", "pool"}), Attempts: hlib.Pick(r, []int{1, 1, 2, 3})}
 	ncalls := 2 + r.Intn(7)
 	var open []int
 	skipAllowed := r.Intn(4) == 0
@@ -1033,7 +1258,23 @@ func genSeq(r *rand.Rand) desc {
 		if o.Stream && r.Intn(3) == 0 {
 			sc.Send = 1 + r.Intn(wl) // the rest comes later (OpSrvMore)
 		}
-		d.Ops = append(d.Ops, opD{Op: "call", T: t, Opts: &o, Sc: &sc})
+		if r.Intn(8) == 0 {
+			sc.Interim = 1 + r.Intn(3)
+		}
+		var more []scriptD
+		for a := 1; a < d.Attempts; a++ { // what the server does with the retries of this call
+			m := scriptD{Resp: resp, Send: wl + 1}
+			switch r.Intn(5) {
+			case 0:
+				m.Send = r.Intn(wl + 1)
+			case 1:
+				m.Send, m.Close = r.Intn(wl+1), true
+			case 2:
+				m.WFail = true
+			}
+			more = append(more, m)
+		}
+		d.Ops = append(d.Ops, opD{Op: "call", T: t, Opts: &o, Sc: &sc, More: more})
 		if o.Stream {
 			open = append(open, t)
 		}
@@ -1068,6 +1309,26 @@ func genSeq(r *rand.Rand) desc {
 	last := optsD{API: "do"}
 	resp := respD{Head: headD{Fr: "len", N: 1}, Body: []*headD{nil}}
 	d.Ops = append(d.Ops, opD{Op: "call", T: ncalls, Opts: &last, Sc: &scriptD{Resp: resp, Send: 2}})
+	return padAttempts(d)
+}
+
+// padAttempts gives every call exactly one script per attempt (the last one repeated)
+func padAttempts(d desc) desc {
+	n := d.Attempts
+	if n < 1 {
+		n = 1
+	}
+	for i := range d.Ops {
+		op := &d.Ops[i]
+		if op.Op != "call" {
+			continue
+		}
+		all := append([]scriptD{*op.Sc}, op.More...)
+		for len(all) < n {
+			all = append(all, all[len(all)-1])
+		}
+		op.More = all[1:n]
+	}
 	return d
 }
 
@@ -1075,6 +1336,8 @@ func gen(r *rand.Rand, i int) desc {
 	switch {
 	case i%40 == 7:
 		return desc{Kind: "stress", Seed: r.Int63n(1 << 30), MaxConns: 2 + r.Intn(6), Workers: 16 + r.Intn(49), PerW: 4 + r.Intn(4), Retry: r.Intn(2) == 0, Skip: r.Intn(2) == 0}
+	case i%40 == 31:
+		return desc{Kind: "api", Seed: r.Int63n(1 << 30), MaxConns: 2 + r.Intn(6), Workers: 12 + r.Intn(30), PerW: 4 + r.Intn(4), Retry: r.Intn(2) == 0}
 	case i%40 == 23:
 		return desc{Kind: "pipe", Seed: r.Int63n(1 << 30), Workers: 8 + r.Intn(25), PerW: 4 + r.Intn(5)}
 	}
@@ -1199,6 +1462,9 @@ func corpus() []desc {
 	add(0, 1, call(0, head, full(crafted("len", 3, 0))), call(1, get, full(lenResp(1))), call(2, optsD{Head: true, Skip: true}, full(lenResp(2))), call(3, get, full(lenResp(1))))
 	add(0, 1, call(0, get, full(respD{Head: headD{Fr: "len", N: 3, NoBody: true}, Body: plain(3)})), call(1, get, full(lenResp(1))))
 	add(0, 1, call(0, head, full(respD{Head: headD{Fr: "ident"}, Body: plain(2)})), call(1, get, full(lenResp(1))))
+	// 1xx interim responses in front of the final one (buffered, streamed, HEAD), then re-use
+	add(2, 1, call(0, get, scriptD{Resp: lenResp(2), Send: 100, Interim: 1}), call(1, stream, scriptD{Resp: crafted("len", 4, 1), Send: 100, Interim: 3}),
+		opD{Op: "sread", T: 1, N: 9}, opD{Op: "sclose", T: 1}, call(2, head, scriptD{Resp: lenResp(2), Send: 100, Interim: 2}), call(3, get, full(lenResp(1))))
 	// Connection: close from either side, MaxConnDuration
 	add(0, 1, call(0, get, full(respD{Head: headD{Fr: "len", N: 1, Close: true}, Body: plain(1)})), call(1, optsD{ReqClose: true}, full(lenResp(1))), call(2, get, full(lenResp(1))))
 	c = append(c, desc{Kind: "seq", MaxConns: 1, Reset: true, Ops: []opD{call(0, get, full(lenResp(1))), call(1, stream, full(lenResp(1))), opD{Op: "sclose", T: 1}, call(2, get, full(lenResp(1)))}})
@@ -1212,10 +1478,28 @@ func corpus() []desc {
 	// resp.SkipBody on a GET whose response carries a (crafted) body: the connection must be closed, or the next call gets the crafted response
 	add(0, 1, call(0, optsD{Skip: true}, full(crafted("len", 3, 0))), call(1, get, full(lenResp(1))), call(2, get, full(lenResp(1))))
 	add(0, 1, call(0, optsD{Skip: true, Stream: true}, full(crafted("len", 2, 0))), call(1, head, full(lenResp(1))), call(2, get, full(lenResp(1))))
+	// HostClient.Do's retry loop: stall, truncation, write failure on a pooled connection, then success; no retry after ErrBodyTooLarge;
+	// a retried streamed call; every attempt must use a connection of its own and the answer must be the one to the last attempt
+	for _, cl := range []bool{false, true} {
+		stall := scriptD{Resp: lenResp(2), Send: 0}
+		cut := scriptD{Resp: lenResp(2), Send: 2, Close: true}
+		wf := scriptD{Resp: lenResp(2), Send: 9, WFail: true}
+		ok := full(crafted("len", 2, 0))
+		retry := func(t int, o optsD, scs ...scriptD) opD {
+			return opD{Op: "call", T: t, Opts: &o, Sc: &scs[0], More: scs[1:]}
+		}
+		c = append(c, padAttempts(desc{Kind: "seq", MaxConns: 2, Attempts: 3, Client: cl, Ops: []opD{
+			retry(0, get, full(lenResp(1))), retry(1, get, stall, cut, ok), retry(2, get, wf, ok), retry(3, head, cut, cut, cut), retry(4, get, full(lenResp(1)))}}))
+		c = append(c, padAttempts(desc{Kind: "seq", Max: 1, MaxConns: 2, Attempts: 2, Client: cl, Objs: "shared", Ops: []opD{
+			retry(0, get, full(lenResp(2)), ok), retry(1, stream, cut, full(lenResp(3))), {Op: "sread", T: 1, N: 9}, {Op: "sclose", T: 1},
+			retry(2, get, stall, full(lenResp(1))), retry(3, get, full(lenResp(1)))}}))
+	}
 	// concurrent histories
 	c = append(c, desc{Kind: "stress", Seed: 11, MaxConns: 3, Workers: 24, PerW: 6, Retry: false})
 	c = append(c, desc{Kind: "stress", Seed: 12, MaxConns: 4, Workers: 32, PerW: 5, Retry: true, Skip: true})
 	c = append(c, desc{Kind: "pipe", Seed: 13, Workers: 16, PerW: 6})
+	c = append(c, desc{Kind: "api", Seed: 14, MaxConns: 3, Workers: 24, PerW: 6, Retry: true})
+	c = append(c, desc{Kind: "api", Seed: 15, MaxConns: 4, Workers: 36, PerW: 5})
 	return c
 }
 
@@ -1223,11 +1507,14 @@ func corpus() []desc {
 
 func run(d desc) hlib.Case {
 	switch d.Kind {
-	case "stress", "pipe":
+	case "stress", "pipe", "api":
 		var h []hcall
-		if d.Kind == "stress" {
+		switch d.Kind {
+		case "stress":
 			h = runStress(d)
-		} else {
+		case "api":
+			h = runAPI(d)
+		default:
 			h = runPipe(d)
 		}
 		ok, bad := 0, 0
